@@ -48,8 +48,24 @@ impl UvMapping {
     pub fn triangle(&self, point: &Point2) -> Option<(usize, [f64; 3])> {
         let result = self
             .tri_map
-            .project_local_point_and_get_location(point, false);
-        let (_, (t_id, loc)) = result;
-        Some((t_id as usize, loc.barycentric_coordinates().unwrap()))
+            .project_local_point_and_get_location(point, true);
+        let (prj, (t_id, loc)) = result;
+
+        // A point inside a triangle of the (solid) 2D map has no boundary feature to be located
+        // on, so its barycentric coordinates are computed from the triangle itself
+        let bc = loc.barycentric_coordinates().or_else(|| {
+            let tri = self.tri_map.triangle(t_id);
+            let (v0, v1, v2) = (tri.b - tri.a, tri.c - tri.a, prj.point - tri.a);
+            let den = v0.x * v1.y - v1.x * v0.y;
+            if den == 0.0 {
+                None
+            } else {
+                let v = (v2.x * v1.y - v1.x * v2.y) / den;
+                let w = (v0.x * v2.y - v2.x * v0.y) / den;
+                Some([1.0 - v - w, v, w])
+            }
+        })?;
+
+        Some((t_id as usize, bc))
     }
 }
